@@ -21,7 +21,7 @@ def ValSpec (fo : FloatOracle) (w : Bytes) (tag : Byte) (payload : Bytes) (dep n
 
 /-- a literal token is a value -/
 theorem valSpec_tok (fo : FloatOracle) (w : Bytes) (hw : IsTok w) (tag : Byte) (v : Lit)
-    (hp : parseLiteral fo w = .ok (tag, some v)) : ValSpec fo w tag (litPayload v) 0 1 := by
+    (hp : parseLiteral fo w = .ok (tag, some v)) (hok : litOk v = true) : ValSpec fo w tag (litPayload v) 0 1 := by
   intro pre k s o ifw name f hst he ht _ hk hfin hf
   obtain ⟨f, rfl⟩ : ∃ f', f = f' + 1 := ⟨f - 1, by omega⟩
   obtain ⟨h1, h2⟩ := tok_read w hw pre k hk s hst he ht o
@@ -33,53 +33,56 @@ theorem valSpec_tok (fo : FloatOracle) (w : Bytes) (hw : IsTok w) (tag : Byte) (
   have : ((finish s k).2 == Op.error) = false := by simpa using hfin
   simp only [this, Bool.false_eq_true, if_false]
   rw [hp]
+  simp only [hok, Bool.not_true, Bool.false_eq_true, if_false]
 
 theorem valSpec_scalar (fo : FloatOracle) (fm : FmtOracle) (t : NBT) (w : Bytes) (hw : scalarText fm t = some w)
-    (hf : FloatHyp fo fm t) : ValSpec fo w t.tag (encPayload t) 0 1 := by
+    (hf : FloatHyp fo fm t) (hlen : ∀ s, t = .string s → s.length < 2 ^ 15) :
+    ValSpec fo w t.tag (encPayload t) 0 1 := by
   cases t with
   | byte v =>
     simp only [scalarText, Option.some.injEq] at hw; subst hw
     have hp := parseLiteral_int_suffix fo v.toInt 66 (Or.inl rfl)
     simp only [if_true, parseInt_toInt (by decide : 0 < 8) v, Option.map_some] at hp
-    have := valSpec_tok fo _ (isTok_int _ _ (Or.inr (Or.inl rfl))) _ _ hp
+    have := valSpec_tok fo _ (isTok_int _ _ (Or.inr (Or.inl rfl))) _ _ hp rfl
     simpa [litPayload, encPayload, NBT.tag, NBT.tagByte, tagByte] using this
   | short v =>
     simp only [scalarText, Option.some.injEq] at hw; subst hw
     have hp := parseLiteral_int_suffix fo v.toInt 83 (Or.inr (Or.inl rfl))
     simp only [show ¬ ((83 : Byte) = 66) by decide, if_false, if_true, parseInt_toInt (by decide : 0 < 16) v,
       Option.map_some] at hp
-    have := valSpec_tok fo _ (isTok_int _ _ (Or.inr (Or.inr (Or.inl rfl)))) _ _ hp
+    have := valSpec_tok fo _ (isTok_int _ _ (Or.inr (Or.inr (Or.inl rfl)))) _ _ hp rfl
     simpa [litPayload, encPayload, be16, NBT.tag, NBT.tagShort, tagShort] using this
   | int v =>
     simp only [scalarText, Option.some.injEq] at hw; subst hw
     have hp := parseLiteral_int_plain fo v.toInt
     simp only [parseInt_toInt (by decide : 0 < 32) v, Option.map_some] at hp
-    have := valSpec_tok fo _ (by simpa using isTok_int v.toInt [] (Or.inl rfl)) _ _ hp
+    have := valSpec_tok fo _ (by simpa using isTok_int v.toInt [] (Or.inl rfl)) _ _ hp rfl
     simpa [litPayload, encPayload, be32, NBT.tag, NBT.tagInt, tagInt] using this
   | long v =>
     simp only [scalarText, Option.some.injEq] at hw; subst hw
     have hp := parseLiteral_int_suffix fo v.toInt 76 (Or.inr (Or.inr (Or.inl rfl)))
     simp only [show ¬ ((76 : Byte) = 66) by decide, show ¬ ((76 : Byte) = 83) by decide, if_false, if_true,
       parseInt_toInt (by decide : 0 < 64) v, Option.map_some] at hp
-    have := valSpec_tok fo _ (isTok_int _ _ (Or.inr (Or.inr (Or.inr (Or.inl rfl))))) _ _ hp
+    have := valSpec_tok fo _ (isTok_int _ _ (Or.inr (Or.inr (Or.inr (Or.inl rfl))))) _ _ hp rfl
     simpa [litPayload, encPayload, be64, NBT.tag, NBT.tagLong, tagLong] using this
   | float b =>
     simp only [scalarText, Option.some.injEq] at hw; subst hw
     obtain ⟨hft, hpf⟩ := hf
     have hp := parseLiteral_float fo _ hft 70 (Or.inl rfl)
     simp only [if_true, hpf, Option.map_some] at hp
-    have := valSpec_tok fo _ (isTok_float _ hft 70 (Or.inl rfl)) _ _ hp
+    have := valSpec_tok fo _ (isTok_float _ hft 70 (Or.inl rfl)) _ _ hp rfl
     simpa [litPayload, encPayload, be32, NBT.tag, NBT.tagFloat, tagFloat] using this
   | double b =>
     simp only [scalarText, Option.some.injEq] at hw; subst hw
     obtain ⟨hft, hpf⟩ := hf
     have hp := parseLiteral_float fo _ hft 68 (Or.inr rfl)
     simp only [show ¬ ((68 : Byte) = 70) by decide, if_false, hpf, Option.map_some] at hp
-    have := valSpec_tok fo _ (isTok_float _ hft 68 (Or.inr rfl)) _ _ hp
+    have := valSpec_tok fo _ (isTok_float _ hft 68 (Or.inr rfl)) _ _ hp rfl
     simpa [litPayload, encPayload, be64, NBT.tag, NBT.tagDouble, tagDouble] using this
   | string str =>
     simp only [scalarText, Option.some.injEq] at hw; subst hw
     have := valSpec_tok fo _ (isTok_str str) _ _ (parseLiteral_writeEscapeStr fo str)
+      (litOk_str str (hlen str rfl))
     simpa [litPayload, encPayload, encString, NBT.tag, NBT.tagString, tagString] using this
   | _ => simp [scalarText] at hw
 
@@ -210,6 +213,7 @@ theorem step_key_start (s : Scanner) (h : s.st = .compoundOrEmpty ∨ s.st = .be
 
 theorem compLoop_spec (fo : FloatOracle) (dep need : Nat) :
     ∀ (es : List Entry), es ≠ [] → (∀ e ∈ es, ValSpec fo e.w e.tag e.payload dep need) →
+    (∀ e ∈ es, e.key.length ≤ maxStrLen) →
     ∀ (pre k : Bytes) (s : Scanner) (σ : List PS) (o : Op) (acc : Bytes) (f : Nat),
       (s.st = .compoundOrEmpty ∨ s.st = .beginString) → s.stack = .compoundName :: σ →
       s.err = false → s.endTop = false → σ.length + 1 + dep ≤ maxNestingDepth + 1 →
@@ -222,7 +226,7 @@ theorem compLoop_spec (fo : FloatOracle) (dep need : Nat) :
   induction es with
   | nil => intro h; exact absurd rfl h
   | cons e rest ih =>
-    intro _ hval pre k s σ o acc f hst hstack he ht hdep hf
+    intro _ hval hkeys pre k s σ o acc f hst hstack he ht hdep hf
     obtain ⟨f, rfl⟩ : ∃ f', f = f' + 1 := ⟨f - 1, by simp at hf; omega⟩
     have hv := hval e (by simp)
     obtain ⟨c0, ws, st0, stE, hK, hbeg, hrun, hend, hsp, h125⟩ := keyTok_str e.key
@@ -265,6 +269,7 @@ theorem compLoop_spec (fo : FloatOracle) (dep need : Nat) :
         rw [← hX, hname]
     rw [hXe]
     dsimp only
+    rw [if_neg (show ¬ e.key.length > maxStrLen by have := hkeys e (by simp); omega)]
     rw [skip_mk _ _ _ _ (by decide)]
     simp only [show (Op.compoundTagName == Op.error) = false by decide,
       show (Op.compoundTagName != Op.compoundTagName) = false by decide, Bool.false_eq_true, if_false]
@@ -333,7 +338,7 @@ theorem compLoop_spec (fo : FloatOracle) (dep need : Nat) :
           ((pre ++ (c0 :: ws) ++ [58]) ++ e.w ++ [44]) ++ wKvs (e' :: rest') ++ 125 :: k := by simp
       have hl3 : (pre ++ (c0 :: ws) ++ [58]).length + e.w.length + 1 =
           ((pre ++ (c0 :: ws) ++ [58]) ++ e.w ++ [44]).length := by simp [List.length_append]; omega
-      have hrec := ih (by simp) (fun x hx => hval x (by simp [hx])) ((pre ++ (c0 :: ws) ++ [58]) ++ e.w ++ [44]) k
+      have hrec := ih (by simp) (fun x hx => hval x (by simp [hx])) (fun x hx => hkeys x (by simp [hx])) ((pre ++ (c0 :: ws) ++ [58]) ++ e.w ++ [44]) k
         { s with stack := .compoundName :: σ, st := .beginString } σ .compoundValue
         (acc ++ (hdr true e.tag e.key ++ e.payload)) f (Or.inr rfl) rfl he ht hdep (by simp at hf ⊢; omega)
       rw [← hD3, ← hl3] at hrec
@@ -365,7 +370,7 @@ theorem step_ce_close (s : Scanner) (σ : List PS) (h : s.st = .compoundOrEmpty)
 
 /-- a compound whose values satisfy `ValSpec` satisfies it, one level deeper -/
 theorem valSpec_compound (fo : FloatOracle) (dep need : Nat) (es : List Entry)
-    (hval : ∀ e ∈ es, ValSpec fo e.w e.tag e.payload dep need) :
+    (hval : ∀ e ∈ es, ValSpec fo e.w e.tag e.payload dep need) (hkeys : ∀ e ∈ es, e.key.length ≤ maxStrLen) :
     ValSpec fo ([123] ++ wKvs es ++ [125]) tagCompound (encEntries es ++ [0]) (dep + 1) (need + es.length + 2) := by
   intro pre k s o ifw name f hst he ht hdep _ _ hf
   obtain ⟨f, rfl⟩ : ∃ f', f = f' + 2 := ⟨f - 2, by omega⟩
@@ -424,7 +429,7 @@ theorem valSpec_compound (fo : FloatOracle) (dep need : Nat) (es : List Entry)
     simp [encEntries]
   | cons e0' rest0 =>
     rw [← hes]
-    have hspec := compLoop_spec fo dep need es (by rw [hes]; simp) hval (pre ++ [123]) k
+    have hspec := compLoop_spec fo dep need es (by rw [hes]; simp) hval hkeys (pre ++ [123]) k
       { s with st := .compoundOrEmpty, stack := .compoundName :: s.stack } s.stack .beginCompound [] (f + 1)
       (Or.inl rfl) rfl he ht (by omega) (by omega)
     rw [← hD1, ← hl1, hfin] at hspec
